@@ -48,6 +48,7 @@ class StubConn(BaseConnection):
         self.responder = None   # callable(payload) -> list of (ticks, payload) scripted for this send
         self.open_calls = 0
         self.close_calls = 0
+        self.inflight_survives_flush = False   # a flush can only drop what has arrived: frames still on their way stay (used where the harness controls idle time)
 
     def open(self):
         self.opened = True
@@ -64,7 +65,7 @@ class StubConn(BaseConnection):
     def empty_rxqueue(self):
         self.log.append(('flush',))
         self.stale = []
-        self.pending = []
+        self.pending = [(t, p) for t, p in self.pending if t > self.clock.now] if self.inflight_survives_flush else []
 
     def specific_send(self, payload):
         self.log.append(('send', bytes(payload)))
